@@ -205,6 +205,9 @@ pub(crate) struct State {
     pub cfg: Config,
     rng: Rng,
     pub frng: Rng,
+    /// the "operating-system randomness" of the simulated process (tokens, salts, uids): its own
+    /// stream, so that drawing from it perturbs neither the schedule nor the faults
+    pub entropy: Rng,
     pub now: u64,
     threads: Vec<Slot>,
     current: usize,
@@ -607,6 +610,12 @@ pub fn count(name: &'static str, n: u64) {
     }
 }
 
+/// Eight bytes of simulated operating-system randomness; None outside a simulation.  Not a
+/// decision point.
+pub fn entropy_u64() -> Option<u64> {
+    ctx().map(|ctx| ctx.inner.lock().entropy.next_u64())
+}
+
 /// Draw from the fault stream (harness-side buggify decisions made inside a run).
 pub fn fault_below(n: u64) -> u64 {
     match ctx() {
@@ -745,6 +754,7 @@ where
         net: Net::new(&cfg.net),
         cfg,
         frng: Rng::new(s2),
+        entropy: Rng::new(crate::rng::mix(&[s2, 0x05_E27_0F1])),
         now: 0,
         threads: vec![Slot {
             name: "driver".into(),
